@@ -3,12 +3,13 @@ package sso
 import (
 	"fmt"
 	"math/rand"
+	"strings"
 	"time"
 
 	"verif/harness/internal/idp"
 )
 
-var relays = []string{"", "relay-1", "a b&c=d", "<\"'>", "ü€😀", "x\ny"}
+var relays = []string{"", "relay-1", "a b&c=d", "<\"'>", "ü€😀", "x\ny", strings.Repeat("r", 81), strings.Repeat("long-relay/", 40)}
 var flagsSP = []*string{nil, idp.S("false"), idp.S("0"), idp.S("true"), idp.S("1")}
 var flagsIdP = []string{"", "false", "true", "1"}
 var styles = []idp.Style{idp.DefaultStyle, {P: "p", A: "a"}, {P: "", A: "saml"}, {P: "samlp", A: ""}, {P: "samlp", A: "saml", Decl: true}, {P: "samlp", A: "saml", Indent: true}, {P: "samlp", A: "saml", SingleQuote: true}}
@@ -112,7 +113,11 @@ func StreamConjuncts(r *rand.Rand) []*Scenario {
 		add(fmt.Sprintf("c:notonorafter%+d", int64(d/time.Second)), func(s *Scenario) { s.Req.NotOnOrAfter = at(d) })
 		add(fmt.Sprintf("c:window%+d", int64(d/time.Second)), func(s *Scenario) { s.Req.NotBefore = at(d - time.Minute); s.Req.NotOnOrAfter = at(d + time.Minute) })
 	}
-	for i, lex := range []string{"yesterday", "2024-01-01", now.Add(time.Hour).Format("2006-01-02T15:04:05+01:00"), now.Add(time.Hour).Format("2006-01-02T15:04:05"), now.Add(time.Hour).Format("2006-01-02T15:04:05.000000000Z"), now.Add(time.Hour).Format("2006-01-02T15:04:05Z"), now.Add(time.Hour).Format("2006-01-02 15:04:05Z"), " " + now.Add(time.Hour).Format(TimeFmt)} {
+	for i, lex := range []string{"yesterday", "2024-01-01", now.Add(time.Hour).Format("2006-01-02T15:04:05+01:00"), now.Add(time.Hour).Format("2006-01-02T15:04:05"), now.Add(time.Hour).Format("2006-01-02T15:04:05.000000000Z"), now.Add(time.Hour).Format("2006-01-02T15:04:05Z"), now.Add(time.Hour).Format("2006-01-02 15:04:05Z"), " " + now.Add(time.Hour).Format(TimeFmt),
+		now.Add(time.Hour).Format("2006-01-02T15:04:05.000000") + "+02:00", now.Add(-time.Hour).Format("2006-01-02T15:04:05.000000") + "+02:00", now.Add(time.Hour).Format("2006-01-02T15:04:05.000000") + " or so",
+		now.Add(time.Hour).Format("2006-01-02T15:04:05.000000") + "Z+1y", now.Add(time.Hour).Format("2006-01-02T15:04:05.0000000") + "Z", now.Add(time.Hour).Format("2006-01-02T15:04:05.000000") + "z", now.Add(time.Hour).Format(TimeFmt) + " ",
+		now.Add(time.Hour).Format(TimeFmt) + "Z", now.Add(time.Hour).Format("2006-01-02T15:04:05") + ".Z", now.Add(time.Hour).Format("2006-01-02T15:04:05") + ",5Z", now.Add(time.Hour).Format("2006-01-02T15:04") + "Z",
+		now.Add(time.Hour).Format("2006-01-02") + "T24:00:00Z", now.Add(time.Hour).Format("2006") + "-13-01T00:00:00Z", now.Add(time.Hour).Format("2006-01-02T15:04:05") + "+00:00", now.Add(time.Hour).Format("20060102T150405Z")} {
 		lex := lex
 		add(fmt.Sprintf("c:notonorafter-lexical-%d", i), func(s *Scenario) { s.Req.NotOnOrAfter = idp.S(lex) })
 		add(fmt.Sprintf("c:notbefore-lexical-%d", i), func(s *Scenario) { s.Req.NotBefore = idp.S(lex) })
@@ -170,6 +175,13 @@ func StreamSigned(r *rand.Rand, n int) []*Scenario {
 			}
 		} else if s.Transport == "post" && r.Intn(6) == 0 {
 			s.Mut = pick(r, []string{"post-detached-sig", "post-detached-sig-bad"})
+		}
+		if len(s.SP.Certs) > 0 && r.Intn(8) == 0 {
+			// the SP registered its certificate for encryption only: there is no signing certificate to verify anything with
+			s.SP.Certs[0].Use = "encryption"
+			if s.Mut == "" {
+				s.Mut = "cert-for-encryption-only"
+			}
 		}
 		out = append(out, s)
 	}
